@@ -1,8 +1,8 @@
 /-
   Fragment reassembly (bp/app/fragment.py `Fragment._reassemble`) composed with the part of
   `Agent.recv_bundle` (bp/agent.py) that decides whether a bundle reaches it: CRC gate, own-source
-  filter, seen-set of bundle identities (a fragment's identity is source, creation time, sequence
-  number, fragment offset and TOTAL length — not its own length), routing to 'deliver', and the
+  filter, seen-set of bundle identities (after fix dc31f2b a fragment's identity is source, creation
+  time, sequence number, fragment offset and its own payload length), routing to 'deliver', and the
   re-injection of the synthesised bundle through `glib.idle_add(recv_bundle, ·)`.
   Security blocks are assumed absent (the BPSec receive steps are then no-ops).
   Tables are functions (frame properties are immediate); everything is executable.
@@ -20,15 +20,16 @@ structure Key where
   seq : Nat
   deriving Repr, DecidableEq, Inhabited
 
-/-- `bundle_ident()`: fragments add (fragment_offset, total_app_data_len) -/
+/-- `bundle_ident()`: fragments add (fragment_offset, len(payload btsd) or None) -/
 structure Ident where
   key : Key
-  frag : Option (Nat × Nat)
+  frag : Option (Nat × Option Nat)
   deriving Repr, DecidableEq, Inhabited
 
 def keyOf (p : Primary) : Key := ⟨p.src, p.ts.time, p.ts.seq⟩
-def identOf (p : Primary) : Ident :=
-  ⟨keyOf p, if isFragment p.flags then some (p.fragOff, p.totalLen) else none⟩
+def identOf (b : FBundle) : Ident :=
+  ⟨keyOf b.primary,
+   if isFragment b.primary.flags then some (b.primary.fragOff, b.payload.map List.length) else none⟩
 
 /-- `Reassembly` dataclass: `valid` kept as the history of received ranges (newest first) -/
 structure Entry where
@@ -44,9 +45,10 @@ abbrev Table := Key → Option Entry
 def norm (b : FBundle) : FBundle := ⟨b.primary, b.blocks.map Blk.ensure⟩
 
 /-- the synthesised original bundle: primary of the first fragment with the fragment flag cleared
-    and CRC type none, blocks copied from it, payload = buffer with CRC none -/
-def synth (first : FBundle) (data : Bytes) : FBundle :=
-  { primary := { first.primary with flags := clearFragFlag first.primary.flags, crcType := 0, crc := none },
+    and its CRC refreshed (`crc_value = None; update_crc()` — the CRC type is kept, fix dffcae7),
+    blocks copied from it, payload = buffer with CRC none -/
+def synth (crcFn : Nat → Bytes → Bytes) (first : FBundle) (data : Bytes) : FBundle :=
+  { primary := updPrimary crcFn { first.primary with flags := clearFragFlag first.primary.flags, crc := none },
     blocks := (norm first).blocks.map (fun x =>
       if x.c.blockNum == 1 then { x with c := { x.c with btsd := some data, crcType := 0, crc := none } }
       else x) }
@@ -68,25 +70,25 @@ def inject (e : Entry) (off : Nat) (d : Bytes) : Entry :=
   { e with data := splice e.data off d, ranges := (off, d.length) :: e.ranges }
 
 /-- `if valid == total_valid:` delete the entry, synthesise and schedule the bundle -/
-def finish (e : Entry) : Option Entry × RRes :=
+def finish (crcFn : Nat → Bytes → Bytes) (e : Entry) : Option Entry × RRes :=
   if exactB e.ranges e.total then
     match e.first with
     | none => (none, .raised)                -- `None.primary`
     | some f =>
-      if (payloadBlk f.blocks).isSome then (none, .cleared (some (synth f e.data)))
+      if (payloadBlk f.blocks).isSome then (none, .cleared (some (synth crcFn f e.data)))
       else (none, .raised)                   -- KeyError from rctr.block_num(1)
   else (some e, .cleared none)
 
 /-- `_reassemble` on the table entry of the fragment's key (`cur`), for a fragment that has
     'deliver' among its actions: new entry (none = deleted) and how the step ended -/
-def reasmEntry (cur : Option Entry) (b : FBundle) : Option Entry × RRes :=
+def reasmEntry (crcFn : Nat → Bytes → Bytes) (cur : Option Entry) (b : FBundle) : Option Entry × RRes :=
   match b.payload with
   | none => (some (entryOf cur b), .raised)  -- KeyError (no block 1) / TypeError (btsd None)
-  | some d => finish (inject (entryOf cur b) b.primary.fragOff d)
+  | some d => finish crcFn (inject (entryOf cur b) b.primary.fragOff d)
 
-def reassemble (t : Table) (b : FBundle) : Table × RRes :=
+def reassemble (crcFn : Nat → Bytes → Bytes) (t : Table) (b : FBundle) : Table × RRes :=
   let k := keyOf b.primary
-  let r := reasmEntry (t k) b
+  let r := reasmEntry crcFn (t k) b
   (fun k' => if k' = k then r.1 else t k', r.2)
 
 structure RCfg where
@@ -95,6 +97,8 @@ structure RCfg where
   deliver : Eid → Bool
   /-- `check_all_crc()` finds nothing -/
   crcOk : FBundle → Bool
+  /-- encoded CRC value for (type, block encoded with zero CRC) -/
+  crcFn : Nat → Bytes → Bytes
 
 structure AState where
   table : Table
@@ -114,14 +118,14 @@ def recvBundle (cfg : RCfg) (s : AState) (b0 : FBundle) : AState :=
     if !cfg.crcOk b then s
     else if b.primary.src == cfg.nodeId then s
     else
-      let id := identOf b.primary
+      let id := identOf b
       if s.seen id then s
       else
         let s1 : AState := { s with seen := fun i => i == id || s.seen i }
         if !cfg.deliver b.primary.dest then s1
         else if !isFragment b.primary.flags then { s1 with delivered := s1.delivered ++ [b] }
         else
-          let r := reassemble s1.table b
+          let r := reassemble cfg.crcFn s1.table b
           match r.2 with
           | .cleared (some rb) => { s1 with table := r.1, pending := s1.pending ++ [rb] }
           | _ => { s1 with table := r.1 }
